@@ -7,6 +7,24 @@ COMMON_ASSUME = [
 ]
 
 PROPS = {
+    "C01": {
+        "stages": [{"bin": "quant"}],
+        "rule": "random part: element types i8,u8,i16,i32,i64,u64,usize,N32,N64 (round robin); 1..4 dims, every axis, lane length 1..40 (1-D to 300), zoo layouts (steps, reversed, permuted axes, offset in a guarded parent), static and dynamic dimensionality; contents: tiny alphabets (heavy ties), constant, sorted, reversed, organ pipe, type extremes, wide random; q in {0, 1, k/(N-1) and its float neighbours, (k+.5)/(N-1) and neighbours, up to 8 ulps around, 5e-324, 1-2^-53, uniform}; all five strategies; entry points quantile(s)_axis_mut and quantile(s)_mut; every case executed 3 times under different pivot policies (determinism). Oracle: sort the lane, index pair and fraction in two readings (f64 product and exact rational product, exact dyadic arithmetic), strategy-specific acceptance. distinct = hash of (type, shape, axis, layout, entry, strategy, q bits, data bits), non-trivial = lane length >= 2 and >= 1 q. Exhaustive part: all weak-order patterns of length <= 4 (5 thorough) x q grid x 5 strategies x ALL pivot sequences for i32, u8, N64.",
+        "exhaustive": False,
+        "assumptions": COMMON_ASSUME + ["'(N-1)q' is read either as the f64 product or as the exact rational product; a result matching either reading is accepted", "Linear on 64-bit integers is judged only when |lower|,|higher| < 2^52 (stated in the property)"],
+    },
+    "C18": {
+        "stages": [{"bin": "quant"}],
+        "rule": "differential monitor between two executions of the real code on equal inputs (fresh embeddings, independent pivot policies): slice j of quantiles_axis_mut / quantiles_mut vs quantile_axis_mut / quantile_mut for q_j (request lists of length 0..32, unordered, with repeats, q sharing / straddling an index, 9 element types, 5 strategies, zoo layouts, every axis); get_many_from_sorted_mut(I)[i] vs get_from_sorted_mut(i) for request lists of length 0..32 on strided views. distinct = hash of (type, shape, axis, layout, strategy, q bits / request, data); non-trivial = >= 2 requests on a lane of length >= 2.",
+        "exhaustive": False,
+        "assumptions": COMMON_ASSUME,
+    },
+    "C19": {
+        "stages": [{"bin": "quant"}],
+        "rule": "metamorphic monitor (no oracle) on 1-D lanes of 9 element types in zoo layouts: per lane a dense q grid (0, 1, 6 random k/(N-1) and (k+.5)/(N-1) with neighbours at 1, 2, 8 ulps, uniform) evaluated for all 5 strategies; relations: monotone in q, min at 0 / max at 1 / within [min,max], Lower <= {Nearest, Midpoint, Linear} <= Higher, all equal when (N-1)q is integral (exactly and in f64), invariance under ALL permutations for N <= 6 (12 sampled above), commutation with a strictly increasing relabelling for Lower/Higher/Nearest. Float Midpoint/Linear relations allow 4u x operand magnitude. distinct = hash of (type, layout, data bits); non-trivial = N >= 2.",
+        "exhaustive": False,
+        "assumptions": COMMON_ASSUME + ["for float interpolation 'one unit in the last place' is taken at the magnitude of the interpolated operands (bounded by the lane's extreme magnitude where no oracle is available)"],
+    },
     "C02": {
         "stages": [{"bin": "sel"}],
         "rule": "exhaustive part: every weak-order pattern of length 1..L (L=7 quick, 8 thorough; strided views and bulk form to smaller L) x every in-range index / every non-empty index subset in 3 presentations x EVERY pivot sequence (enumerated through the pivot hook by depth-first replay); each (pattern, request, pivot sequence) execution with n>=2 is one distinct non-trivial case (counted exactly). Random part: lengths up to 300, heavy ties, strides in {1,2,3,-1,-2,-3}, 6 pivot policies; distinct = hash of (keys, request, layout, pivot log). Oracle: std sort of the snapshot + post-condition + multiset-by-id + guard cells.",
@@ -34,6 +52,24 @@ SANITIZER_STAGES = {}
 
 _EXPL = "exploration: the real code is executed and every execution is judged by an independent oracle; "
 MANIFEST_TEXT = {
+    "C01": {
+        "technique": "runtime monitoring: reference-model oracle (sort + exact dyadic arithmetic for index/fraction/interpolation) over executions of the real quantile code; determinism monitor across pivot policies; all pivot sequences for short lanes",
+        "level_text": _EXPL + "seeded generation over element types, dimensionalities, axes, layouts, q classes around every index boundary and all strategies, plus complete pivot-sequence enumeration for lanes up to length 4/5.",
+        "level_note": "trusted: std sort, num-bigint for the exact dyadic arithmetic, the harness's logical-index map (self-checked); float tolerance 8u*max(|lo|,|hi|)",
+        "design_ref": "DESIGN.md section 3 C01",
+    },
+    "C18": {
+        "technique": "runtime monitoring: differential monitor between bulk and single-item executions of the real code (quantiles, selection; moments and per-axis weighted statistics via the numeric event log)",
+        "level_text": _EXPL + "both sides are the real code on cloned inputs under independent pivot policies; equality is bit-exact for order statistics.",
+        "level_note": "trusted: nothing beyond ndarray indexing of the two results",
+        "design_ref": "DESIGN.md section 3 C18",
+    },
+    "C19": {
+        "technique": "runtime monitoring: metamorphic relations between executions of the real quantile code (no reference model)",
+        "level_text": _EXPL + "relations need no oracle and therefore also cover inputs where an oracle would share a misreading of the definition.",
+        "level_note": "trusted: exact dyadic comparison; float slack 4u x operand magnitude for Midpoint/Linear only",
+        "design_ref": "DESIGN.md section 3 C19",
+    },
     "C02": {
         "technique": "runtime monitoring: reference-model oracle over executions of the real selection code, with complete enumeration of small inputs and of all pivot sequences via the pivot hook",
         "level_text": _EXPL + "for inputs up to the length bound the space (weak-order patterns x requests x pivot sequences) is enumerated completely, which is as strong as monitoring can be for a comparison-only routine; beyond the bound seeded random cases. Not a proof for longer inputs.",
